@@ -498,3 +498,701 @@ func armScope(p *packages.Package, n ast.Node) []ast.Node {
 	})
 	return out
 }
+
+// ---- rules added after the fifth round of seeded changes ----
+
+// isLebDecode reports whether call decodes an unsigned LEB128 (leb128.DecodeUint32 / LoadUint32).
+func isLebDecode(info *types.Info, call *ast.CallExpr) bool {
+	f := core.Callee(info, call)
+	return f != nil && f.Pkg() != nil && strings.HasSuffix(f.Pkg().Path(), "/leb128") && strings.Contains(f.Name(), "Uint32")
+}
+
+// checkReservedImmediatesOneByte (R03.18): where the validator demands that a decoded index immediate is zero (a reserved
+// memory index), it also demands that it was encoded in one byte: both engines skip exactly one byte for it, so a longer
+// encoding of zero makes them decode the padding as instructions that were never validated.
+func checkReservedImmediatesOneByte(c *core.Ctx) {
+	p := c.Pkg("internal/wasm")
+	if p == nil {
+		return
+	}
+	info := p.TypesInfo
+	n := 0
+	core.AllFuncDecls(p, func(fd *ast.FuncDecl) {
+		// value and size results of the decodes of this function
+		sizeOf := map[types.Object]types.Object{}
+		ast.Inspect(fd.Body, func(x ast.Node) bool {
+			as, ok := x.(*ast.AssignStmt)
+			if !ok || len(as.Lhs) != 3 || len(as.Rhs) != 1 {
+				return true
+			}
+			call, ok := as.Rhs[0].(*ast.CallExpr)
+			if !ok || !isLebDecode(info, call) {
+				return true
+			}
+			v, ok1 := as.Lhs[0].(*ast.Ident)
+			s, ok2 := as.Lhs[1].(*ast.Ident)
+			if !ok1 || !ok2 {
+				return true
+			}
+			obj := func(id *ast.Ident) types.Object {
+				if o := info.Defs[id]; o != nil {
+					return o
+				}
+				return info.Uses[id]
+			}
+			if ov := obj(v); ov != nil {
+				sizeOf[ov] = obj(s)
+			}
+			return true
+		})
+		if len(sizeOf) == 0 {
+			return
+		}
+		ast.Inspect(fd.Body, func(x ast.Node) bool {
+			is, ok := x.(*ast.IfStmt)
+			if !ok || len(is.Body.List) == 0 {
+				return true
+			}
+			if _, rejects := is.Body.List[0].(*ast.ReturnStmt); !rejects {
+				return true
+			}
+			var val types.Object
+			ast.Inspect(is.Cond, func(y ast.Node) bool {
+				if be, ok := y.(*ast.BinaryExpr); ok && be.Op == token.NEQ {
+					if id, ok := ast.Unparen(be.X).(*ast.Ident); ok {
+						if k, isK := core.ConstVal(info, be.Y); isK && k == 0 {
+							if _, dec := sizeOf[info.Uses[id]]; dec {
+								val = info.Uses[id]
+							}
+						}
+					}
+				}
+				return true
+			})
+			if val == nil {
+				return true
+			}
+			n++
+			size := sizeOf[val]
+			sized := false
+			scan := func(node ast.Node) {
+				ast.Inspect(node, func(y ast.Node) bool {
+					if be, ok := y.(*ast.BinaryExpr); ok && (be.Op == token.NEQ || be.Op == token.GTR) {
+						if id, ok := ast.Unparen(be.X).(*ast.Ident); ok && size != nil && info.Uses[id] == size {
+							if _, isK := core.ConstVal(info, be.Y); isK {
+								sized = true
+							}
+						}
+					}
+					// or a helper of the package given the size (one level)
+					if call, ok := y.(*ast.CallExpr); ok {
+						if f := core.Callee(info, call); f != nil && f.Pkg() == p.Types {
+							for _, a := range call.Args {
+								if id, ok := ast.Unparen(a).(*ast.Ident); ok && size != nil && info.Uses[id] == size {
+									if hd := declOf(p, f); hd != nil && comparesCount(info, hd.Body) {
+										sized = true
+									}
+								}
+							}
+						}
+					}
+					return true
+				})
+			}
+			scan(is.Cond)
+			c.Check(sized, "R03.18", fmt.Sprintf("validator %s: reserved zero immediate #%d is required to be one byte long", fd.Name.Name, n), is.Pos(),
+				"the rejecting condition also bounds the number of bytes the immediate was decoded from",
+				"the validator accepts any LEB128 encoding of the reserved zero index (e.g. 80 80 00) while both engines skip exactly one byte for it: the padding bytes are then executed as opcodes that were never validated (compile-time panic `index out of range [-1]`, or code other than what was validated)")
+			return true
+		})
+	})
+	if n == 0 {
+		c.Undecided("R03.18", "reserved zero immediates of the validator", 0, "no `decoded value != 0 → reject` found")
+	}
+}
+
+// checkBrTableSkipsDefault (R03.19): where the interpreter's lowering skips the immediates of a br_table in dead code, it
+// reads the default label too (count+1 labels): otherwise the default label is decoded as the next opcode.
+func checkBrTableSkipsDefault(c *core.Ctx) {
+	p := c.Pkg("internal/engine/interpreter")
+	if p == nil {
+		return
+	}
+	info := p.TypesInfo
+	found := false
+	core.AllFuncDecls(p, func(fd *ast.FuncDecl) {
+		ast.Inspect(fd.Body, func(x ast.Node) bool {
+			cc, ok := x.(*ast.CaseClause)
+			if !ok || len(cc.List) == 0 || constNameOf(info, cc.List[0]) != "OpcodeBrTable" {
+				return true
+			}
+			// the count: first result of the first decode of the arm
+			var count types.Object
+			ast.Inspect(cc, func(y ast.Node) bool {
+				if as, ok := y.(*ast.AssignStmt); ok && count == nil && len(as.Lhs) == 3 && len(as.Rhs) == 1 {
+					if call, ok := as.Rhs[0].(*ast.CallExpr); ok && isLebDecode(info, call) {
+						if id, ok := as.Lhs[0].(*ast.Ident); ok {
+							count = info.Defs[id]
+						}
+					}
+				}
+				return true
+			})
+			if count == nil {
+				return true
+			}
+			// the dead-code branch: an if whose body only skips (loops over decodes, emits nothing)
+			for _, st := range cc.Body {
+				is, ok := st.(*ast.IfStmt)
+				if !ok {
+					continue
+				}
+				for _, sn := range armScope(p, is.Body) {
+					var stmts []ast.Stmt
+					if b, ok := sn.(*ast.BlockStmt); ok {
+						stmts = b.List
+					}
+					for i, s2 := range stmts {
+						fs, ok := s2.(*ast.ForStmt)
+						if !ok || fs.Cond == nil {
+							continue
+						}
+						decodes := false
+						ast.Inspect(fs.Body, func(y ast.Node) bool {
+							if call, ok := y.(*ast.CallExpr); ok && isLebDecode(info, call) {
+								decodes = true
+							}
+							return true
+						})
+						be, ok := ast.Unparen(fs.Cond).(*ast.BinaryExpr)
+						if !decodes || !ok {
+							continue
+						}
+						found = true
+						inclusive := be.Op == token.LEQ
+						if be.Op == token.LSS {
+							// count+1 as the bound, or one more decode after the loop
+							if y, ok := ast.Unparen(be.Y).(*ast.BinaryExpr); ok && y.Op == token.ADD {
+								if k, isK := core.ConstVal(info, y.Y); isK && k == 1 {
+									inclusive = true
+								}
+							}
+							for _, s3 := range stmts[i+1:] {
+								ast.Inspect(s3, func(y ast.Node) bool {
+									if call, ok := y.(*ast.CallExpr); ok && isLebDecode(info, call) {
+										inclusive = true
+									}
+									return true
+								})
+							}
+						}
+						c.Check(inclusive, "R03.19", "interpreter lowering: a br_table in dead code skips its default label too", fs.Pos(),
+							"the skipping loop reads count+1 labels",
+							"the loop that skips the immediates of a br_table in unreachable code reads only `count` labels: the default label is then decoded as the next opcode – a valid module is refused ('type index out of range'), or the compilation panics, on the interpreter only")
+					}
+				}
+			}
+			return true
+		})
+	})
+	if !found {
+		c.Undecided("R03.19", "dead-code br_table skipping of the interpreter lowering", 0, "not found")
+	}
+}
+
+// checkCondMapsAreInvolutions (R05.6): a total mapping of condition codes onto condition codes written as a switch
+// (negation, operand swap) is an involution: f(f(c)) = c. A table copied from a sibling with one entry left unchanged is
+// not.
+func checkCondMapsAreInvolutions(c *core.Ctx) {
+	n := 0
+	for _, rel := range []string{"internal/engine/wazevo/backend/isa/amd64", "internal/engine/wazevo/backend/isa/arm64", "internal/engine/wazevo/ssa"} {
+		p := c.Pkg(rel)
+		if p == nil {
+			continue
+		}
+		info := p.TypesInfo
+		core.AllFuncDecls(p, func(fd *ast.FuncDecl) {
+			if fd.Recv == nil || len(fd.Recv.List) != 1 || len(fd.Recv.List[0].Names) != 1 || fd.Type.Params.NumFields() != 0 || fd.Type.Results.NumFields() != 1 {
+				return
+			}
+			rt := info.TypeOf(fd.Recv.List[0].Type)
+			if rt == nil || !types.Identical(rt, info.TypeOf(fd.Type.Results.List[0].Type)) {
+				return
+			}
+			if b, ok := rt.Underlying().(*types.Basic); !ok || b.Info()&types.IsInteger == 0 {
+				return
+			}
+			if len(fd.Body.List) != 1 {
+				return
+			}
+			sw, ok := fd.Body.List[0].(*ast.SwitchStmt)
+			if !ok || sw.Tag == nil {
+				return
+			}
+			if id, ok := ast.Unparen(sw.Tag).(*ast.Ident); !ok || info.Uses[id] != info.Defs[fd.Recv.List[0].Names[0]] {
+				return
+			}
+			m := map[string]string{}
+			identityDefault := false
+			for _, s := range sw.Body.List {
+				cc := s.(*ast.CaseClause)
+				if len(cc.Body) != 1 {
+					return
+				}
+				rs, ok := cc.Body[0].(*ast.ReturnStmt)
+				if !ok || len(rs.Results) != 1 {
+					if cc.List == nil {
+						continue // default: panic
+					}
+					return
+				}
+				to := constNameOf(info, rs.Results[0])
+				if cc.List == nil {
+					if id, ok := rs.Results[0].(*ast.Ident); ok && info.Uses[id] == info.Defs[fd.Recv.List[0].Names[0]] {
+						identityDefault = true
+					}
+					continue
+				}
+				if to == "" {
+					return
+				}
+				for _, l := range cc.List {
+					if from := constNameOf(info, l); from != "" {
+						m[from] = to
+					}
+				}
+			}
+			if len(m) < 4 {
+				return
+			}
+			n++
+			var bad []string
+			for from, to := range m {
+				back, ok := m[to]
+				if !ok && identityDefault {
+					back = to
+					ok = true
+				}
+				if ok && back != from {
+					bad = append(bad, fmt.Sprintf("%s→%s→%s", from, to, back))
+				}
+			}
+			sort.Strings(bad)
+			c.Check(len(bad) == 0, "R05.6", fmt.Sprintf("%s %s.%s is an involution", core.Rel(p.PkgPath), types.TypeString(rt, func(*types.Package) string { return "" }), fd.Name.Name), fd.Pos(),
+				fmt.Sprintf("%d entries, f(f(c)) = c for each", len(m)),
+				"the table maps "+strings.Join(bad, ", ")+": negating or swapping a comparison twice must give the comparison back; one entry disagrees with its sibling, so a comparison lowered through this table computes another relation for some operands")
+		})
+	}
+	if n == 0 {
+		c.Undecided("R05.6", "condition-code mappings of the backends", 0, "none found")
+	}
+}
+
+// checkExtendSignednessConsulted (R05.7): code that looks inside an extension instruction (ExtendData) consults whether it
+// sign- or zero-extends, unless it has established that the instruction is exactly one of the two.
+func checkExtendSignednessConsulted(c *core.Ctx) {
+	n := 0
+	for _, rel := range []string{"internal/engine/wazevo/ssa", "internal/engine/wazevo/backend", "internal/engine/wazevo/backend/isa/amd64", "internal/engine/wazevo/backend/isa/arm64", "internal/engine/wazevo/frontend"} {
+		p := c.Pkg(rel)
+		if p == nil {
+			continue
+		}
+		info := p.TypesInfo
+		core.AllFuncDecls(p, func(fd *ast.FuncDecl) {
+			var stack []ast.Node
+			ast.Inspect(fd.Body, func(x ast.Node) bool {
+				if x == nil {
+					stack = stack[:len(stack)-1]
+					return true
+				}
+				stack = append(stack, x)
+				as, ok := x.(*ast.AssignStmt)
+				if !ok || len(as.Rhs) != 1 || len(as.Lhs) != 3 {
+					return true
+				}
+				call, ok := as.Rhs[0].(*ast.CallExpr)
+				if !ok {
+					return true
+				}
+				if f := core.Callee(info, call); f == nil || f.Name() != "ExtendData" {
+					return true
+				}
+				n++
+				okc := true
+				why := "the signedness result is bound and used"
+				if id, isID := as.Lhs[2].(*ast.Ident); isID && id.Name == "_" {
+					// which extend opcodes were established by the enclosing conditions?
+					u, s := false, false
+					for _, anc := range stack {
+						var conds []ast.Expr
+						switch a := anc.(type) {
+						case *ast.IfStmt:
+							conds = append(conds, a.Cond)
+							if a.Init != nil {
+								ast.Inspect(a.Init, func(z ast.Node) bool {
+									if e, ok := z.(ast.Expr); ok {
+										conds = append(conds, e)
+										return false
+									}
+									return true
+								})
+							}
+						case *ast.CaseClause:
+							conds = append(conds, a.List...)
+						}
+						for _, e := range conds {
+							ast.Inspect(e, func(z ast.Node) bool {
+								if id, ok := z.(*ast.Ident); ok {
+									switch id.Name {
+									case "OpcodeUExtend":
+										u = true
+									case "OpcodeSExtend":
+										s = true
+									}
+								}
+								return true
+							})
+						}
+					}
+					okc = u != s
+					why = "the signedness is discarded, but the enclosing conditions establish exactly one extend opcode"
+				}
+				c.Check(okc, "R05.7", fmt.Sprintf("%s: use #%d of the operands of an extension consults its signedness", core.FuncName(p, fd), n), as.Pos(), why,
+					"`"+core.ExprStr(as.Rhs[0])+"` discards whether the instruction sign- or zero-extends, and the enclosing conditions admit both (or neither) of OpcodeSExtend/OpcodeUExtend: a rewrite valid for the zero extension only (e.g. `ext(x) & mask = ext(x)`) is applied to sign extensions too and yields 0xffffffff80000000 where 0x80000000 is specified")
+				return true
+			})
+		})
+	}
+	if n == 0 {
+		c.Undecided("R05.7", "uses of Instruction.ExtendData", 0, "none found")
+	}
+}
+
+// mutexKey names the mutex a Lock/Unlock call acts on: the field it is, and the struct that has it.
+func mutexKey(call ssa.CallInstruction) (key string, op string) {
+	cm := call.Common()
+	f := cm.StaticCallee()
+	if f == nil || f.Pkg == nil || f.Pkg.Pkg.Path() != "sync" || len(cm.Args) == 0 {
+		return "", ""
+	}
+	switch f.Name() {
+	case "Lock", "RLock":
+		op = "lock"
+	case "Unlock", "RUnlock":
+		op = "unlock"
+	default:
+		return "", ""
+	}
+	if fa, ok := cm.Args[0].(*ssa.FieldAddr); ok {
+		if st, _ := derefStructT(fa.X.Type()).Underlying().(*types.Struct); st != nil {
+			owner := ""
+			if n := core.NamedOf(fa.X.Type()); n != nil {
+				owner = n.Obj().Name()
+			}
+			return owner + "." + st.Field(fa.Field).Name(), op
+		}
+	}
+	return "?", op
+}
+
+// checkNoPanicWithLockHeld (R06.10): an explicit panic (a trap) is never raised while a mutex taken in the same function,
+// and not released by a deferred call, is held: the trap is recovered at the call boundary, the mutex stays locked, and
+// every later operation on the object (atomics of a shared memory, Grow) blocks for ever.
+func checkNoPanicWithLockHeld(c *core.Ctx) {
+	n, locks := 0, 0
+	fns := moduleFns(c, "internal/engine/interpreter", "internal/wasm", "internal/engine/wazevo")
+	sort.Slice(fns, func(i, j int) bool { return fns[i].String() < fns[j].String() })
+	for _, fn := range fns {
+		deferred := map[string]bool{}
+		has := false
+		for _, b := range fn.Blocks {
+			for _, in := range b.Instrs {
+				if ci, ok := in.(ssa.CallInstruction); ok {
+					k, op := mutexKey(ci)
+					if _, isDefer := in.(*ssa.Defer); isDefer && op == "unlock" {
+						deferred[k] = true
+					} else if op == "lock" {
+						has = true
+					}
+				}
+			}
+		}
+		if !has {
+			continue
+		}
+		// must-hold sets, forward over the CFG
+		type set map[string]bool
+		in := map[*ssa.BasicBlock]set{}
+		out := map[*ssa.BasicBlock]set{}
+		transfer := func(b *ssa.BasicBlock, s set, report bool) set {
+			cur := set{}
+			for k := range s {
+				cur[k] = true
+			}
+			for _, ins := range b.Instrs {
+				switch x := ins.(type) {
+				case *ssa.Call:
+					k, op := mutexKey(x)
+					if op == "lock" && !deferred[k] {
+						cur[k] = true
+						if report {
+							locks++
+						}
+					} else if op == "unlock" {
+						delete(cur, k)
+					}
+				case *ssa.Panic:
+					// assertions ("BUG: …" strings) end the process' trust in the runtime anyway; traps are error values
+					if mi, ok := x.X.(*ssa.MakeInterface); ok {
+						if b, isB := mi.X.Type().Underlying().(*types.Basic); isB && b.Info()&types.IsString != 0 {
+							continue
+						}
+					}
+					if report {
+						n++
+						var held []string
+						for k := range cur {
+							held = append(held, k)
+						}
+						sort.Strings(held)
+						if len(held) > 0 {
+							c.Violate("R06.10", fmt.Sprintf("%s: no trap is raised while %s is held", core.SSAFuncName(fn), strings.Join(held, ", ")), x.Pos(),
+								"the function panics (a trap, recovered at the call boundary) on a path on which "+strings.Join(held, ", ")+" was locked and not unlocked, and no deferred call releases it: the mutex stays locked after the trap, and every later atomic operation or grow of that memory blocks for ever")
+						}
+					}
+				}
+			}
+			return cur
+		}
+		for changed, iter := true, 0; changed && iter < 50; iter++ {
+			changed = false
+			for _, b := range fn.Blocks {
+				var s set
+				if len(b.Preds) == 0 {
+					s = set{}
+				} else {
+					first := true
+					for _, p := range b.Preds {
+						o, ok := out[p]
+						if !ok {
+							continue // not yet computed: optimistic
+						}
+						if first {
+							s = set{}
+							for k := range o {
+								s[k] = true
+							}
+							first = false
+						} else {
+							for k := range s {
+								if !o[k] {
+									delete(s, k)
+								}
+							}
+						}
+					}
+					if s == nil {
+						s = set{}
+					}
+				}
+				in[b] = s
+				o := transfer(b, s, false)
+				if prev, ok := out[b]; !ok || len(prev) != len(o) {
+					out[b] = o
+					changed = true
+				} else {
+					for k := range o {
+						if !prev[k] {
+							out[b] = o
+							changed = true
+						}
+					}
+				}
+			}
+		}
+		for _, b := range fn.Blocks {
+			transfer(b, in[b], true)
+		}
+	}
+	c.Count("explicit_panics_in_locking_functions", n)
+	if locks == 0 {
+		c.Undecided("R06.10", "mutexes locked without a deferred unlock", 0, "none found in the engines and internal/wasm")
+		return
+	}
+	c.Discharge("R06.10", "no explicit panic while a mutex without deferred unlock is held", 0,
+		fmt.Sprintf("%d lock sites without deferred unlock, %d explicit panics in those functions examined (violations are listed separately)", locks, n))
+}
+
+// checkOverflowUnwindOrder (R20.14): on the stack-overflow exit path the address tested for "inside the Before trampoline"
+// is the innermost unwound return address, i.e. it is read before that address is dropped from the list.
+func checkOverflowUnwindOrder(c *core.Ctx) {
+	n := 0
+	for _, fn := range moduleFns(c, "internal/engine/wazevo") {
+		for _, b := range fn.Blocks {
+			for _, in := range b.Instrs {
+				call, ok := in.(*ssa.Call)
+				if !ok {
+					continue
+				}
+				f := call.Common().StaticCallee()
+				if f == nil || f.Name() != "isListenerBeforeTrampoline" || len(call.Common().Args) < 2 {
+					continue
+				}
+				// the argument: element 0 of a slice
+				arg := call.Common().Args[len(call.Common().Args)-1]
+				ld, ok := arg.(*ssa.UnOp)
+				if !ok {
+					continue
+				}
+				ia, ok := ld.X.(*ssa.IndexAddr)
+				if !ok {
+					continue
+				}
+				n++
+				// walk the slice value back: it must not have been advanced ([k:] with k>0) since it was unwound
+				advanced := ""
+				var walk func(v ssa.Value, d int)
+				seen := map[ssa.Value]bool{}
+				walk = func(v ssa.Value, d int) {
+					if v == nil || seen[v] || d > 12 {
+						return
+					}
+					seen[v] = true
+					switch x := v.(type) {
+					case *ssa.Slice:
+						if x.Low != nil {
+							if k, isK := x.Low.(*ssa.Const); !isK || k.Value == nil || k.Value.String() != "0" {
+								advanced = c.Pos(x.Pos())
+							}
+						}
+						walk(x.X, d+1)
+					case *ssa.Phi:
+						for _, e := range x.Edges {
+							walk(e, d+1)
+						}
+					case *ssa.UnOp:
+						// a local spilled to memory: the values stored into it that reach here
+						if al, ok := x.X.(*ssa.Alloc); ok && al.Referrers() != nil {
+							for _, r := range *al.Referrers() {
+								if st, ok := r.(*ssa.Store); ok && st.Addr == ssa.Value(al) && (st.Block() != x.Block() && st.Block().Dominates(x.Block()) || st.Block() == x.Block() && instrIndex(st) < instrIndex(x)) {
+									// only the last dominating store is the value; approximated by the closest one
+									_ = st
+								}
+							}
+							var best *ssa.Store
+							for _, r := range *al.Referrers() {
+								if st, ok := r.(*ssa.Store); ok && st.Addr == ssa.Value(al) {
+									before := st.Block() == x.Block() && instrIndex(st) < instrIndex(x) || st.Block() != x.Block() && st.Block().Dominates(x.Block())
+									if before && (best == nil || best.Block().Dominates(st.Block()) && (best.Block() != st.Block() || instrIndex(best) < instrIndex(st))) {
+										best = st
+									}
+								}
+							}
+							if best != nil {
+								walk(best.Val, d+1)
+							}
+						}
+					}
+				}
+				walk(ia.X, 0)
+				c.Check(advanced == "", "R20.14", core.SSAFuncName(fn)+": the Before-trampoline test reads the innermost unwound return address", call.Pos(),
+					"element 0 of the unwound list, before anything was dropped from its front",
+					"the list of return addresses was advanced (at "+advanced+") before its first element is tested for 'inside the Before trampoline': the test looks at the caller's address, the case 'the stack was exhausted on the way to f's Before' is never recognised and f receives Abort without a preceding Before")
+			}
+		}
+	}
+	if n == 0 {
+		c.Undecided("R20.14", "Before-trampoline test of the stack-overflow exit path", 0, "not found")
+	}
+}
+
+// checkUnwindCompleteness (R20.15): the stack iterator decides that the whole stack was unwound by comparing what the
+// bounded unwinder returned with the very limit it was given; the unwinder counts the entries already in the buffer.
+func checkUnwindCompleteness(c *core.Ctx) {
+	p := c.Pkg("internal/engine/wazevo")
+	if p == nil {
+		return
+	}
+	info := p.TypesInfo
+	n := 0
+	core.AllFuncDecls(p, func(fd *ast.FuncDecl) {
+		var dst string
+		var limit types.Object
+		var callEnd token.Pos
+		ast.Inspect(fd.Body, func(x ast.Node) bool {
+			as, ok := x.(*ast.AssignStmt)
+			if !ok || len(as.Lhs) != 1 || len(as.Rhs) != 1 {
+				return true
+			}
+			call, ok := as.Rhs[0].(*ast.CallExpr)
+			if !ok {
+				return true
+			}
+			if f := core.Callee(info, call); f == nil || f.Name() != "unwindStackUpTo" || len(call.Args) < 2 {
+				return true
+			}
+			if id, ok := ast.Unparen(call.Args[len(call.Args)-1]).(*ast.Ident); ok {
+				limit = info.Uses[id]
+			}
+			dst, callEnd = core.ExprStr(as.Lhs[0]), as.End()
+			return true
+		})
+		if dst == "" || limit == nil {
+			return
+		}
+		localDef := map[types.Object]ast.Expr{}
+		ast.Inspect(fd.Body, func(x ast.Node) bool {
+			if as, ok := x.(*ast.AssignStmt); ok && as.Tok == token.DEFINE && len(as.Lhs) == len(as.Rhs) {
+				for i, l := range as.Lhs {
+					if id, ok := l.(*ast.Ident); ok && info.Defs[id] != nil {
+						localDef[info.Defs[id]] = as.Rhs[i]
+					}
+				}
+			}
+			return true
+		})
+		ast.Inspect(fd.Body, func(x ast.Node) bool {
+			is, ok := x.(*ast.IfStmt)
+			if !ok || is.Pos() < callEnd {
+				return true
+			}
+			be, ok := ast.Unparen(is.Cond).(*ast.BinaryExpr)
+			if !ok {
+				return true
+			}
+			lhs, rhs, op := be.X, be.Y, be.Op
+			if id, ok := ast.Unparen(lhs).(*ast.Ident); ok && info.Uses[id] == limit {
+				lhs, rhs = rhs, lhs
+				switch op {
+				case token.GTR:
+					op = token.LSS
+				case token.GEQ:
+					op = token.LEQ
+				case token.LSS:
+					op = token.GTR
+				case token.LEQ:
+					op = token.GEQ
+				}
+			}
+			id, ok := ast.Unparen(rhs).(*ast.Ident)
+			if !ok || info.Uses[id] != limit {
+				return true
+			}
+			if l, ok := ast.Unparen(lhs).(*ast.Ident); ok {
+				if d, ok := localDef[info.Uses[l]]; ok {
+					lhs = d
+				}
+			}
+			n++
+			want := "len(" + dst + ")"
+			got := core.ExprStr(ast.Unparen(lhs))
+			c.Check(got == want && (op == token.LSS || op == token.GEQ), "R20.15", core.FuncName(p, fd)+": 'the whole stack was unwound' compares the unwinder's result with its limit", is.Pos(),
+				"`"+core.ExprStr(is.Cond)+"`: the length of what unwindStackUpTo returned against the limit it was given",
+				"the completeness test is `"+core.ExprStr(is.Cond)+"`, not `"+want+" < limit`: unwindStackUpTo stops when the buffer – including the entries it already held – reaches the limit, so with a pre-seeded entry the test is always true, the iterator never unwinds further and a listener sees a stack truncated after the first window")
+			return true
+		})
+	})
+	if n == 0 {
+		c.Undecided("R20.15", "completeness test after the bounded unwinder", 0, "not found")
+	}
+}
